@@ -22,6 +22,7 @@ class Trace:
         self.sorts = []        # dicts: by, keys (array), perm (positions) or None
         self.gmm = []          # dicts per ncomp_from_gmm call
         self.best_gmm = []     # dicts: abics, kwargs, out
+        self.argsort = []      # dicts: vals, perm (np.argsort inside layer.py)
         self.missing = []      # wrapper targets that could not be installed
 
 
@@ -47,6 +48,24 @@ class _NpProxy(types.ModuleType):
         t = _tr()
         if t is not None:
             t.percentile.append({'vals': np.array(a, dtype=float).ravel().copy(), 'q': q, 'res': res})
+        return res
+
+
+class _NpLayerProxy(types.ModuleType):
+    """Stands in for `numpy` inside ampycloud.layer: only `argsort` is intercepted."""
+
+    def __init__(self):
+        super().__init__('numpy_proxy_layer')
+
+    def __getattr__(self, name):
+        return getattr(np, name)
+
+    @staticmethod
+    def argsort(a, *args, **kwargs):
+        res = np.argsort(a, *args, **kwargs)
+        t = _tr()
+        if t is not None:
+            t.argsort.append({'vals': np.array(a, dtype=float).ravel().copy(), 'perm': [int(i) for i in np.ravel(res)]})
         return res
 
 
@@ -227,13 +246,20 @@ def recording():
     if orig_best is not None:
         patch(layer, 'best_gmm', best_gmm)
 
+    if hasattr(layer, 'np'):
+        patch(layer, 'np', _NpLayerProxy())
+    else:
+        t.missing.append('layer.np')
+
     # --- sort_values --------------------------------------------------------------------------
     orig_sort = pd.DataFrame.sort_values
 
     def sort_values(self, by, *args, **kwargs):
         keys = None
+        kdtype = None
         try:
             if isinstance(by, str) and by in self.columns:
+                kdtype = str(self[by].dtype)
                 keys = np.array(self[by], dtype=float).copy()
         except Exception:
             keys = None
@@ -247,7 +273,7 @@ def recording():
                     perm = [int(p) for p in idx_before.get_indexer(after)]
             except Exception:
                 perm = None
-            t.sorts.append({'by': by, 'keys': keys, 'perm': perm})
+            t.sorts.append({'by': by, 'keys': keys, 'perm': perm, 'dtype': kdtype})
         return res
     saved.append((pd.DataFrame, 'sort_values', orig_sort))
     pd.DataFrame.sort_values = sort_values
